@@ -14,8 +14,10 @@
 
    The resolver proper (ToEntry, uses, augment, deviation, type restriction arithmetic ...) is NOT modelled here: the
    result of a Process run is an abstract function [sem] of the [view], the collection of everything those phases
-   read from the Modules value.  Go map iteration order (only resolveIdentities still ranges over a map; process()
-   visits the modules in the order of their keys since c66538f) is the explicit oracle [ord].
+   read from the Modules value.  Nothing in it depends on Go map iteration order any more: process() and
+   resolveIdentities visit the modules in the order of their keys (sortedModules, since c66538f / 769c856), typedefs
+   are resolved in an order fixed by the sources (38e0b90); FindModuleByNamespace still ranges over the map but its
+   three-way answer does not depend on the order.
 
    [fixes] switches between the code as pinned and the code after the repairs made for the findings of C18 (D43,
    D55, D56, D57, D62); the constant [now] says which of them the checked tree contains (the correspondence check
@@ -113,7 +115,6 @@ Record view := {
 Section Machine.
   Variable obs : Type.
   Variable sem : view -> obs.                       (* the rest of Process and the dump: batch semantics *)
-  Variable ord : list ghdr -> list ghdr.            (* Go map iteration order over ms.Modules *)
 
   Record state := {
     reg : mstate;                  (* Modules, SubModules, loaded *)
@@ -280,18 +281,21 @@ Section Machine.
     Definition wholeModule (p : pst) (root : ghdr) : list ghdr :=
       closure (3 + length c_mods + total_includes) p (root :: owner root) [].
 
-    (* Identity.modulePrefixedName: the name of the module a submodule belongs to when that module is loaded *)
-    Definition owner_name (x : ghdr) : str :=
-      match owner x with
-      | o :: _ => gname o
-      | [] => gname x
+    (* resolveIdentities, first loop (as of 769c856): every module of sortedModules(ms.Modules) with the submodules
+       it reaches through bound includes; the key is owner.FullName() ":" identity name, where the owner is the
+       module being visited unless the submodule says it belongs to another one (then that module if it is loaded,
+       else the submodule itself).  Entries are overwritten per key; the dictionary starts empty (b3c50c0). *)
+    Definition ident_owner (top x : ghdr) : ghdr :=
+      match g_belongs x with
+      | Some b => if str_eqb b (gname top) then top
+                  else match owner x with o :: _ => o | [] => x end
+      | None => top
       end.
 
-    (* resolveIdentities, first loop: entries are overwritten per key, never removed *)
     Definition resolve_identities (tops : list ghdr) (p : pst) : pst :=
       fold_left (fun p m =>
         fold_left (fun p x =>
-          fold_left (fun p i => with_ident p (owner_name x, i) (gid x)) (g_idents x) p)
+          fold_left (fun p i => with_ident p (FullName (g_hdr (ident_owner m x)), i) (gid x)) (g_idents x) p)
           (wholeModule p m) p) tops p.
 
     (* resolveTypedefs and the Type.resolve calls of ToEntry: a type that has been resolved keeps its YangType.
@@ -315,9 +319,6 @@ Section Machine.
         fold_left (memo_one m false) (enum (g_imports m))
           (fold_left (memo_one m true) (enum (g_includes m)) p)) c_mods p.
 
-    (* for _, mod := range ms.Modules (resolveIdentities): Go map order, the oracle *)
-    Definition tops : list ghdr := ord (filed_values c_reg c_mods).
-
     (* sortedModules(ms.Modules): the module of every key, keys in string order (a module with a revision comes
        twice, the second visit of include finds it in ms.includes) *)
     Definition sorted_tops : list ghdr :=
@@ -326,7 +327,7 @@ Section Machine.
 
     Definition process_core (p0 : pst) : pst * bool :=
       let '(p1, ok) := include_all (S (length c_mods)) sorted_tops p0 in
-      (resolve_types (resolve_identities tops p1), ok).
+      (resolve_types (resolve_identities sorted_tops p1), ok).
   End Process.
 
   (* ---------------- Process *)
@@ -433,4 +434,4 @@ Arguments OLoad {obs}. Arguments OProc {obs}. Arguments ONs {obs}. Arguments OTr
 
 (* the instance the driver runs: the observation is the view itself, map order = order of acceptance *)
 Definition run_view (fx : fixes) (ops : list op) : state view * list (observation view) :=
-  run (fun v => v) (fun l => l) fx NewState ops.
+  run (fun v => v) fx NewState ops.
